@@ -1000,6 +1000,7 @@ func ruleNullSpell(c *Ctx) {
 	for _, b := range c.bodies() {
 		nullSpellComparison(c, b)
 		nullSpellHandler(c, b)
+		nullProbes(c, b)
 	}
 }
 
@@ -1264,4 +1265,209 @@ func nullSpellComparison(c *Ctx, b *Body) {
 	} else if n > 0 {
 		l.add("R-NULLSPELL", b.Name, key, b.rel(cmp.Pos()), Discharged, fmt.Sprintf("%d verdict(s) on the nil-operand path, each also reading the other operand's state", n), true)
 	}
+}
+
+// nullProbes (R-NULLSPELL): a null can be kept as text — the copy operation re-encodes a null
+// member into a node holding `null`. The decoder accepts that text into a map or slice
+// without an error and leaves the target nil, so a container probe that only looks at the
+// decoder's error takes null for an empty object or array: a copied null then tests equal
+// to {} and unequal to null. For every probe the comparison applies to an operand, one of
+//   (a) the probe refuses the text: after decoding it tests the decoded field for nil and
+//       answers false;
+//   (b) the call is reached only on the non-null edge of a test of the operand's text
+//       against the literal null (bytes.Equal(compact, "null"), directly or in a bool method);
+//   (c) the comparison itself tests the decoded field of that operand for nil.
+func nullProbes(c *Ctx, b *Body) {
+	l := c.L
+	eq := b.equalRole()
+	if eq == nil {
+		return
+	}
+	// probes: bool methods of the node that store `which`, with the field they decode into
+	type probeInfo struct {
+		field   string
+		refuses bool
+	}
+	probes := map[*ssa.Function]probeInfo{}
+	for _, f := range b.srcFuncs(b.Lib) {
+		if f.Signature.Recv() == nil || !isPtrToNamed(f.Signature.Recv().Type(), "lazyNode") || f.Signature.Params().Len() != 0 {
+			continue
+		}
+		if f.Signature.Results().Len() != 1 || typeShort(f.Signature.Results().At(0).Type()) != "bool" {
+			continue
+		}
+		stores := false
+		field := ""
+		allInstrs(f, func(i ssa.Instruction) {
+			if st, ok := i.(*ssa.Store); ok {
+				if fa, ok := st.Addr.(*ssa.FieldAddr); ok && fieldName(fa.X.Type(), fa.Field) == "which" {
+					stores = true
+				}
+			}
+			if ci, ok := i.(ssa.CallInstruction); ok {
+				for _, a := range ci.Common().Args {
+					if mi, ok := a.(*ssa.MakeInterface); ok {
+						a = mi.X
+					}
+					if fa, ok := a.(*ssa.FieldAddr); ok && fa.X == ssa.Value(f.Params[0]) {
+						fn := fieldName(fa.X.Type(), fa.Field)
+						if fn != "which" && fn != "raw" {
+							field = fn
+						}
+					}
+				}
+			}
+		})
+		if !stores || field == "" {
+			continue
+		}
+		// (a) a nil test of the decoded field whose nil edge returns false
+		refuses := false
+		for _, bb := range f.Blocks {
+			iff, ok := lastInstr(bb).(*ssa.If)
+			if !ok {
+				continue
+			}
+			x, nnTrue, isNil := nilTestOfCond(iff.Cond)
+			if !isNil {
+				continue
+			}
+			base, fr, ok := fieldLoad(x)
+			if !ok || base != ssa.Value(f.Params[0]) || fr.Field != field {
+				continue
+			}
+			nilSucc := 0
+			if nnTrue {
+				nilSucc = 1
+			}
+			if returnsConst(bb.Succs[nilSucc], false) {
+				refuses = true
+			}
+		}
+		probes[f] = probeInfo{field, refuses}
+	}
+	// null-text tests: bytes.Equal(compact(x), <fixed text>) in eq, or a bool method of the node that contains one on its receiver
+	isNullTextFn := map[*ssa.Function]bool{}
+	hasNullCompare := func(f *ssa.Function, recv ssa.Value) bool {
+		found := false
+		allInstrs(f, func(i ssa.Instruction) {
+			call, ok := i.(*ssa.Call)
+			if !ok {
+				return
+			}
+			g := call.Call.StaticCallee()
+			if g == nil || g.Pkg == nil || g.Pkg.Pkg.Path() != "bytes" || g.Name() != "Equal" {
+				return
+			}
+			for k := 0; k < 2; k++ {
+				cc, ok := call.Call.Args[k].(*ssa.Call)
+				if !ok || len(cc.Call.Args) == 0 || cc.Call.Args[0] != recv {
+					continue
+				}
+				other := call.Call.Args[1-k]
+				if _, isCall := other.(*ssa.Call); !isCall {
+					found = true
+				}
+			}
+		})
+		return found
+	}
+	for _, f := range b.srcFuncs(b.Lib) {
+		if f.Signature.Recv() != nil && isPtrToNamed(f.Signature.Recv().Type(), "lazyNode") && f.Signature.Params().Len() == 0 && f.Signature.Results().Len() == 1 && typeShort(f.Signature.Results().At(0).Type()) == "bool" {
+			if _, isProbe := probes[f]; !isProbe && hasNullCompare(f, f.Params[0]) {
+				isNullTextFn[f] = true
+			}
+		}
+	}
+	n := 0
+	allInstrs(eq, func(i ssa.Instruction) {
+		call, ok := i.(*ssa.Call)
+		if !ok {
+			return
+		}
+		pf := call.Call.StaticCallee()
+		pi, isProbe := probes[pf]
+		if !isProbe {
+			return
+		}
+		n++
+		x := call.Call.Args[0]
+		key := fmt.Sprintf("%s: probe %s #%d does not take a null kept as text for an empty container", b.canonFname(eq), fname(pf), n)
+		if pi.refuses {
+			l.add("R-NULLSPELL", b.Name, key, b.posOf(call), Discharged, "(a) the probe tests the decoded "+pi.field+" for nil and answers false: the text null is refused", true)
+			return
+		}
+		// (b)
+		for _, bb := range eq.Blocks {
+			iff, ok := lastInstr(bb).(*ssa.If)
+			if !ok {
+				continue
+			}
+			cv, neg := stripNot(iff.Cond)
+			tc, ok := cv.(*ssa.Call)
+			if !ok || len(tc.Call.Args) == 0 {
+				continue
+			}
+			same := tc.Call.Args[0] == x
+			if !same {
+				// the operand may have been replaced by a scratch copy of itself: accept a test of
+				// the value the scratch copy was made from
+				if phi, ok := x.(*ssa.Phi); ok {
+					for _, e := range phi.Edges {
+						if e == tc.Call.Args[0] {
+							same = true
+						}
+					}
+				}
+			}
+			if !same || !isNullTextFn[tc.Call.StaticCallee()] {
+				continue
+			}
+			fe := 1
+			if neg {
+				fe = 0
+			}
+			if edgeDominates(bb, fe, call.Block()) {
+				l.add("R-NULLSPELL", b.Name, key, b.posOf(call), Discharged, "(b) reached only on the not-null edge of "+fname(tc.Call.StaticCallee())+" at "+b.posOf(iff)+", which compares the operand's text with the literal null", true)
+				return
+			}
+		}
+		// (c)
+		for _, bb := range eq.Blocks {
+			iff, ok := lastInstr(bb).(*ssa.If)
+			if !ok {
+				continue
+			}
+			v, _, isNil := nilTestOfCond(iff.Cond)
+			if !isNil {
+				continue
+			}
+			base, fr, ok := fieldLoad(v)
+			if !ok || fr.Field != pi.field {
+				continue
+			}
+			if base == x || sameOperand(base, x) {
+				l.add("R-NULLSPELL", b.Name, key, b.posOf(call), Discharged, "(c) the comparison tests "+pi.field+" of this operand for nil at "+b.posOf(iff)+": a null that the probe let through is told from an empty container", true)
+				return
+			}
+		}
+		l.add("R-NULLSPELL", b.Name, key, b.posOf(call), Violated, "the probe decodes the operand's text into "+pi.field+" and only looks at the decoder's error; the text null decodes without one, leaving "+pi.field+" nil: a null kept as text (what the copy operation makes of a null member) is compared as an empty container — it tests equal to {} and unequal to null", true)
+	})
+}
+
+// sameOperand: two SSA values that denote the same comparison operand (one is a phi over the other).
+func sameOperand(x, y ssa.Value) bool {
+	if x == y {
+		return true
+	}
+	for _, pr := range [][2]ssa.Value{{x, y}, {y, x}} {
+		if phi, ok := pr[0].(*ssa.Phi); ok {
+			for _, e := range phi.Edges {
+				if e == pr[1] {
+					return true
+				}
+			}
+		}
+	}
+	return false
 }
